@@ -199,21 +199,35 @@ func diffPath(t *Ty, a, b reflect.Value, path string) string {
 	return ""
 }
 
-// equalModuloLeadingBOM: got is want, except that strings which the JSON syntax evaluates as TEMPLATES when
-// an EvalContext is given - attribute values with everything inside them, map keys included; NOT block
-// labels, which are property names of the JSON body - have lost exactly one leading U+FEFF. *n counts the
-// strings that did. This is the whole effect of the pinned finding json-template-leading-bom
-// (hclsyntax.scanTokens strips a leading byte order mark in every scan mode): any other difference between
-// want and got is not explained by it.
-func equalModuloLeadingBOM(t *Ty, want, got reflect.Value, inAttr bool, n *int) bool {
-	const bom = "\ufeff"
+// ---- what template evaluation does to a JSON string (ctx != nil) beyond the escapes ------------------
+//
+// The strings the JSON syntax evaluates as TEMPLATES when an EvalContext is given are the attribute values
+// with everything inside them, map keys included; NOT block labels, which are property names of the JSON
+// body.  One pinned behaviour of hclsyntax.scanTokens changes such a string although the harness writes it
+// with `${` / `%{` doubled as json/spec.md requires:
+//
+//   json-template-leading-bom       a leading U+FEFF is stripped (in every scan mode).
+//
+// (A second one, found by this check at n = 40,000 - the bare-template scanner stopped at a carriage return
+// not followed by a line feed and returned the rest of the string as one raw literal, so that "\r$${" came
+// back "\r$$${" - is repaired in /repo 70c81c0 and has no classification here: it is a plain
+// json-decode-differs if it ever comes back.)
+
+const bomStr = "\ufeff"
+
+func stripOneBOM(s string) string { return strings.TrimPrefix(s, bomStr) }
+
+// equalModuloTmpl: got is want, except that every template-evaluated string w (see above) may have come back
+// as pred(w).  *n counts the strings that came back changed.  Any other difference between want and got is
+// not explained by pred.
+func equalModuloTmpl(t *Ty, want, got reflect.Value, inAttr bool, pred func(string) string, n *int) bool {
 	switch t.K {
 	case TString:
 		w, g := want.String(), got.String()
 		if w == g {
 			return true
 		}
-		if inAttr && strings.HasPrefix(w, bom) && g == w[len(bom):] {
+		if inAttr && g == pred(w) {
 			*n++
 			return true
 		}
@@ -222,13 +236,13 @@ func equalModuloLeadingBOM(t *Ty, want, got reflect.Value, inAttr bool, n *int) 
 		if want.IsNil() != got.IsNil() {
 			return false
 		}
-		return want.IsNil() || equalModuloLeadingBOM(t.E, want.Elem(), got.Elem(), inAttr, n)
+		return want.IsNil() || equalModuloTmpl(t.E, want.Elem(), got.Elem(), inAttr, pred, n)
 	case TSlice:
 		if want.IsNil() != got.IsNil() || want.Len() != got.Len() {
 			return false
 		}
 		for i := 0; i < want.Len(); i++ {
-			if !equalModuloLeadingBOM(t.E, want.Index(i), got.Index(i), inAttr, n) {
+			if !equalModuloTmpl(t.E, want.Index(i), got.Index(i), inAttr, pred, n) {
 				return false
 			}
 		}
@@ -241,16 +255,16 @@ func equalModuloLeadingBOM(t *Ty, want, got reflect.Value, inAttr bool, n *int) 
 			gv := got.MapIndex(k)
 			if !gv.IsValid() {
 				ks := k.String()
-				if !inAttr || !strings.HasPrefix(ks, bom) {
+				if !inAttr || pred(ks) == ks {
 					return false
 				}
-				gv = got.MapIndex(reflect.ValueOf(ks[len(bom):]).Convert(k.Type()))
+				gv = got.MapIndex(reflect.ValueOf(pred(ks)).Convert(k.Type()))
 				if !gv.IsValid() {
 					return false
 				}
 				*n++
 			}
-			if !equalModuloLeadingBOM(t.E, want.MapIndex(k), gv, inAttr, n) {
+			if !equalModuloTmpl(t.E, want.MapIndex(k), gv, inAttr, pred, n) {
 				return false
 			}
 		}
@@ -261,11 +275,120 @@ func equalModuloLeadingBOM(t *Ty, want, got reflect.Value, inAttr bool, n *int) 
 				continue
 			}
 			in := f.Kind == "attr" || f.Kind == "optional"
-			if !equalModuloLeadingBOM(f.T, want.Field(i), got.Field(i), in, n) {
+			if !equalModuloTmpl(f.T, want.Field(i), got.Field(i), in, pred, n) {
 				return false
 			}
 		}
 		return true
 	}
 	return reflect.DeepEqual(want.Interface(), got.Interface())
+}
+
+// equalModuloLeadingBOM: got is want, except that template-evaluated strings have lost exactly one leading
+// U+FEFF.  *n counts the strings that did.  This is the whole effect of the pinned finding
+// json-template-leading-bom: any other difference between want and got is not explained by it.
+func equalModuloLeadingBOM(t *Ty, want, got reflect.Value, inAttr bool, n *int) bool {
+	return equalModuloTmpl(t, want, got, inAttr, stripOneBOM, n)
+}
+
+// ---- json-template-leading-bom showing up as an ERROR ---------------------------------------------------
+//
+// Two keys of one map that differ only by one leading U+FEFF of one of them ("" and "\ufeff") evaluate to
+// the SAME key in template mode, and the JSON object expression reports "Duplicate object attribute".
+
+// bomKeyGroups walks the template-evaluated maps of the value; for each map, the keys are grouped by what
+// they evaluate to; excess[name]++ for every key beyond the first of a group (name = the evaluated key).
+func bomKeyGroups(t *Ty, rv reflect.Value, inAttr bool, excess map[string]int) {
+	switch t.K {
+	case TPtr:
+		if !rv.IsNil() {
+			bomKeyGroups(t.E, rv.Elem(), inAttr, excess)
+		}
+	case TSlice:
+		for i := 0; i < rv.Len(); i++ {
+			bomKeyGroups(t.E, rv.Index(i), inAttr, excess)
+		}
+	case TMap:
+		seen := map[string]bool{}
+		for _, k := range sortedMapKeys(rv) {
+			if inAttr {
+				r := stripOneBOM(k)
+				if seen[r] {
+					excess[r]++
+				}
+				seen[r] = true
+			}
+			bomKeyGroups(t.E, rv.MapIndex(reflect.ValueOf(k).Convert(rv.Type().Key())), inAttr, excess)
+		}
+	case TStruct:
+		for i, f := range t.F {
+			switch f.Kind {
+			case "attr", "optional":
+				bomKeyGroups(f.T, rv.Field(i), true, excess)
+			case "block":
+				bomKeyGroups(f.T, rv.Field(i), false, excess)
+			}
+		}
+	}
+}
+
+// dropBOMCollidingKeys: a copy of the value in which every template-evaluated map keeps, of the keys that
+// evaluate to the same key, only the one that IS that key (no byte order mark to lose), else the first.
+func dropBOMCollidingKeys(t *Ty, rv reflect.Value, inAttr bool) reflect.Value {
+	gt := goType(t)
+	out := reflect.New(gt).Elem()
+	switch t.K {
+	case TPtr:
+		if !rv.IsNil() {
+			p := reflect.New(gt.Elem())
+			p.Elem().Set(dropBOMCollidingKeys(t.E, rv.Elem(), inAttr))
+			out.Set(p)
+		}
+	case TSlice:
+		if !rv.IsNil() {
+			s := reflect.MakeSlice(gt, rv.Len(), rv.Len())
+			for i := 0; i < rv.Len(); i++ {
+				s.Index(i).Set(dropBOMCollidingKeys(t.E, rv.Index(i), inAttr))
+			}
+			out.Set(s)
+		}
+	case TMap:
+		if !rv.IsNil() {
+			m := reflect.MakeMap(gt)
+			has := map[string]bool{}
+			keys := sortedMapKeys(rv)
+			for _, k := range keys {
+				has[k] = true
+			}
+			taken := map[string]bool{}
+			for _, k := range keys {
+				if inAttr {
+					r := stripOneBOM(k)
+					if (k != r && has[r]) || taken[r] {
+						continue
+					}
+					taken[r] = true
+				}
+				kv := reflect.ValueOf(k).Convert(gt.Key())
+				m.SetMapIndex(kv, dropBOMCollidingKeys(t.E, rv.MapIndex(kv), inAttr))
+			}
+			out.Set(m)
+		}
+	case TStruct:
+		for i, f := range t.F {
+			switch f.Kind {
+			case "attr", "optional":
+				out.Field(i).Set(dropBOMCollidingKeys(f.T, rv.Field(i), true))
+			case "block":
+				out.Field(i).Set(dropBOMCollidingKeys(f.T, rv.Field(i), false))
+			default:
+				if f.T.K != TBody {
+					out.Field(i).Set(rv.Field(i))
+				}
+			}
+		}
+	default:
+		out.Set(rv)
+	}
+	return out
 }
